@@ -113,7 +113,7 @@ class C08:
         if rng.random() < 0.06:
             # a directory symbolic link that is a second name for a directory of the payload (no cycle): whatever the
             # tool makes of it, the outcome may not depend on spelling, location or enumeration order
-            gen.add_dir_alias(rng, tree)
+            (gen.add_file_alias if rng.random() < 0.35 else gen.add_dir_alias)(rng, tree)
         o = {}
         if rng.random() < 0.4:
             o["private"] = True
@@ -306,7 +306,7 @@ class C08:
                                   distinct_files=len(hs_files)))
         counters["dot_ending_variants"] = dotend
         if any(len(l) > 2 for l in tree.get("links", ())):
-            counters["cases_with_directory_alias_link"] = 1
+            counters["cases_with_symlink_alias_in_payload"] = 1
         counters["variants_compared"] = compared
         multi_entry = len(tree["files"]) >= 2
         kinds = sorted({v["kind"] for v in variants})
